@@ -41,7 +41,7 @@ def is_zip_name(name):
 class Check:
     id = PROP
     level = "fault_enumeration"
-    cases = {"quick": 500, "thorough": 20000}
+    cases = {"quick": 800, "thorough": 8000}
     rule = ("case = tree holding zip archives (0..N members, nested directories, stored/deflated, unix modes and type bits, dates across months/years, names with spaces and non-ASCII, .zip/.jar/.war/.ear/.ZIP, "
             "a zip under a non-zip name, non-zips and a directory under a zip name) x E (arrival order, DT_UNKNOWN, inode renumbering, hash seed, simulated clock incl. the 31st and 29 Feb). "
             "list: member rows against a zipfile model + ordinary rows relational to the query without `archives`, with WHERE / ORDER BY / LIMIT variants. "
